@@ -14,6 +14,25 @@ SwapHandle(w, sender, msg) ==
           ELSE HOk([w EXCEPT !.bank["swap"][msg.target] = @ + out],          \* unlimited liquidity
                    IF out > 0 THEN <<BankMsg(to, msg.target, out)>> ELSE <<>>)
 
+\* airdrop stubs (environment, DESIGN.md E5 / section 11): the registry fabricates a claim for the hub, the airdrop
+\* contract hands `air.amt` tokens to the claimant, the token moves them to the pair on Send, the pair pays the
+\* proceeds (1:1 in the bSei reward coin) to the reward contract
+AirHandle(c, w, sender, msg) ==
+  CASE c = "airdrop" /\ msg.k = "fabricate_claim" ->
+         HOk(w, <<WasmMsg("hub", [k |-> "claim_airdrop", airdrop_token_contract |-> "airtoken", airdrop_contract |-> "airdropc",
+                                   airdrop_swap_contract |-> "airpair"], <<>>)>>)
+    [] c = "airdropc" /\ msg.k = "claim" ->
+         IF sender = "hub" THEN HOk([w EXCEPT !.air.hub = @ + w.air.amt], <<>>) ELSE HOk(w, <<>>)
+    [] c = "airtoken" /\ msg.k = "send" ->
+         IF sender # "hub" \/ msg.amount = 0 \/ w.air.hub < msg.amount THEN HErr(w, "airtoken: insufficient balance")
+         ELSE IF msg.contract # "airpair" THEN HErr(w, "airtoken: recipient is not a contract")
+         ELSE HOk([w EXCEPT !.air.hub = @ - msg.amount, !.air.pair = @ + msg.amount],
+                  <<WasmMsg("airpair", [k |-> "receive", sender |-> sender, amount |-> msg.amount, hook |-> "swap"], <<>>)>>)
+    [] c = "airpair" /\ msg.k = "receive" ->
+         IF sender # "airtoken" THEN HErr(w, "airpair: unauthorized")
+         ELSE HOk([w EXCEPT !.bank["reward"]["kusd"] = @ + msg.amount], <<>>)
+    [] OTHER -> HErr(w, "airdrop stub: unknown message")
+
 Handle(c, w, sender, msg, funds) ==
   CASE c = "hub"        -> HubHandle(w, sender, msg, funds)
     [] c = "bsei"       -> TokHandle("bsei", w, sender, msg)
@@ -22,6 +41,7 @@ Handle(c, w, sender, msg, funds) ==
     [] c = "dispatcher" -> DispHandle(w, sender, msg)
     [] c = "registry"   -> RegHandle(w, sender, msg)
     [] c = "swap"       -> SwapHandle(w, sender, msg)
+    [] c \in {"airdrop", "airdropc", "airtoken", "airpair"} -> AirHandle(c, w, sender, msg)
     [] OTHER            -> HErr(w, "no such contract")
 
 \* one line of the effect log per dispatched message
